@@ -106,7 +106,8 @@ def run(ctx):
                   env={'OUT_TABLE': ft}, workers=1, coverage=False)
     rows = json.load(open(ft))
     nrows = 0
-    for row in rows:
+    reps = ctx.pick(1, 8)            # thorough: every row of the table under several draws of dtype / shape / reduction / width / format
+    for row in [r_ for r_ in rows for _ in range(reps)]:
         names, req, expected = row['array'], row['req'], row['expected']
         nrows += 1
         if ctx.quick and nrows % 2:
